@@ -465,6 +465,15 @@ func (p *printer) node(n *Node, ind int) {
 // Print returns the .templ source of the file (package main; template names prefix + "T<i>"), the
 // position records of its Go expressions, and the imports it needs. Normalize must have been
 // applied to the file.
+// namedImports: name -> package path and a symbol of it (the printer writes a use of the symbol so
+// that the import is not an unused one).
+var namedImports = map[string][2]string{
+	"tt":  {"github.com/a-h/templ", "EscapeString"},
+	"rt":  {"github.com/a-h/templ/runtime", "GetBuffer"},
+	"str": {"strings", "ToUpper"},
+	"ht":  {"html", "EscapeString"},
+}
+
 func Print(f *File, prefix string) (string, []Record) {
 	p := &printer{prefix: prefix, imports: map[string]bool{}, latin1: f.Latin1}
 	// print the body first into a scratch printer to learn the imports
@@ -493,13 +502,23 @@ func Print(f *File, prefix string) (string, []Record) {
 		imps = append(imps, k)
 	}
 	sort.Strings(imps)
-	if len(imps) > 0 {
+	if len(imps)+len(f.NamedImports) > 0 {
 		var sb strings.Builder
 		sb.WriteString("import (\n")
 		for _, k := range imps {
 			sb.WriteString("\t" + strconv.Quote(k) + "\n")
 		}
+		var uses []string
+		for _, ni := range f.NamedImports {
+			if d, ok := namedImports[ni]; ok {
+				sb.WriteString("\t" + ni + " " + strconv.Quote(d[0]) + "\n")
+				uses = append(uses, "var _ = "+ni+"."+d[1])
+			}
+		}
 		sb.WriteString(")")
+		if len(uses) > 0 {
+			sb.WriteString("\n\n" + strings.Join(uses, "\n"))
+		}
 		p.expr("go", sb.String())
 		p.w("\n\n")
 	}
